@@ -32,12 +32,28 @@ def sym_atom(name):
     return a
 
 
+_FN_BUCKETS = {}     # (fn, rounded fingerprint) -> [Atom]: arguments that are equal as rational functions share one atom
+
+
 def fn_atom(fn, arg):
-    """arg: Rat.  Key by the canonical form of the argument."""
+    """arg: Rat.  Key by the canonical form of the argument; non-polynomial arguments (whose printed form is not
+    canonical) are identified semantically: fingerprint bucket + exact cross-multiplication."""
     key = '%s(%s)' % (fn, arg.key())
     a = _ATOMS.get(key)
-    if a is None:
-        a = _ATOMS[key] = Atom(key, fn, arg)
+    if a is not None:
+        return a
+    if not arg.is_poly():
+        fp = fingerprint(arg)
+        if fp is not None:
+            bk = (fn, round(fp.real, 6), round(fp.imag, 6))
+            for cand in _FN_BUCKETS.get(bk, ()):
+                if cand.arg.equals(arg):
+                    _ATOMS[key] = cand
+                    return cand
+            a = _ATOMS[key] = Atom(key, fn, arg)
+            _FN_BUCKETS.setdefault(bk, []).append(a)
+            return a
+    a = _ATOMS[key] = Atom(key, fn, arg)
     return a
 
 
@@ -306,6 +322,17 @@ class Poly(object):
             tot += v
         return tot
 
+    def evalf_scaled(self, env):
+        tot = 0j
+        scale = 0.0
+        for m, c in self.t.items():
+            v = complex(float(c[0]), float(c[1]))
+            for a, e in m:
+                v *= _atom_value(a, env) ** e
+            tot += v
+            scale += abs(v)
+        return tot, scale
+
 
 def _cstr(c):
     if c[1] == 0:
@@ -420,6 +447,10 @@ def _atom_value(a, env):
         return cmath.asin(u)
     if f == 'abs':
         return abs(u)
+    if env.get('__fingerprint__'):
+        # uninterpreted function: any fixed function of the argument value serves for fingerprinting
+        h = sum(ord(c) for c in f) * 0.37
+        return cmath.sin(u * 1.2345 + h) + 0.5
     raise KeyError(a)
 
 
@@ -436,6 +467,8 @@ class Rat(object):
                 raise Undecidable('division by an expression that is identically zero')
             if den.is_const():
                 num = num.scale(_cinv(den.const_value()))
+                den = _ONE
+            elif num.is_zero():
                 den = _ONE
             self.num, self.den = num, den
         self._key = None
@@ -742,25 +775,48 @@ def _canon_sign(x):
 
 
 # --------------------------------------------------------------------------- probabilistic refutation helper
-def numerically_zero(r, trials=6, seed=12345):
+def numerically_zero(r, trials=16, seed=20240229):
     """Evaluate a Rat built by the checker at random points (NOT the package's code).
     Used only to avoid reporting a VIOLATION when a mismatch of normal forms may be due to
     a relation between function atoms that the rewrite system does not know."""
     rnd = random.Random(seed)
     atoms = [a for a in r.atoms() if _ATOMS[a].fn is None]
     ok = 0
-    for _ in range(trials):
-        env = {a: rnd.uniform(0.3, 1.7) for a in atoms}
+    atoms = sorted(atoms)
+    for trial in range(trials):
+        # signs: trial 0 all positive, trial 1 all negative, then pseudo-random mixtures
+        env = {}
+        for a in atoms:
+            neg = (trial == 1) or (trial > 1 and rnd.random() < 0.5)
+            env[a] = rnd.uniform(0.3, 1.7) * (-1 if (neg and a not in POSITIVE) else 1)
         if 'pi' in env:
             env['pi'] = math.pi
         try:
-            v = r.evalf(env)
+            # the quotient vanishes iff its numerator does; compare with the size of the numerator's own terms
+            v, scale = r.num.evalf_scaled(env)
         except (ZeroDivisionError, ValueError, OverflowError, KeyError):
             continue
-        if v != v:
+        if v != v or scale != scale:
             continue
-        scale = 1.0
-        if abs(v) > 1e-7 * scale:
+        if abs(v) > 1e-9 * scale:
             return False
         ok += 1
     return ok >= 3
+
+
+_FP_ENV = {'__fingerprint__': True}
+
+
+def fingerprint(r):
+    """numeric fingerprint of a Rat at a fixed pseudo-random point: equal normal forms (modulo the rewrite
+    relations) have equal fingerprints; used only to skip hopeless `equals` calls"""
+    rnd = random.Random(987654321)
+    for a in sorted(x for x in r.atoms() if _ATOMS[x].fn is None):
+        if a not in _FP_ENV:
+            h = random.Random(a).uniform(0.4, 1.6)
+            _FP_ENV[a] = math.pi if a == 'pi' else h
+    try:
+        v = r.evalf(_FP_ENV)
+    except (ZeroDivisionError, OverflowError, ValueError):
+        return None
+    return v
